@@ -258,6 +258,10 @@ class Check:
         return [k for k in self.findings if k.get("property") == self.pid and k.get("status") == "open"
                 and (kind is None or k.get("kind") == kind)]
 
+    def listed_inputs(self, kind=None):
+        """inputs of every listed finding of this property (open and fixed): the regression corpus that runs first"""
+        return [k for k in self.findings if k.get("property") == self.pid and "input" in k and (kind is None or k.get("kind") == kind)]
+
     def finish(self, level="proof", assumptions=None):
         wall = time.time() - self.t0
         # broken obligations without any violation found on the implementation
